@@ -143,7 +143,9 @@ _ALPHABET = "0123456789" * 3 + "--++::..,TZWWzt \x00xé€\U0001f600\ud800"
 
 #: datetimes that fulfil one of the constraints, with white space around them: such a string is not a datetime with offset (the library parser rejects it)
 PADDED = [pre + d + post for d in ("2022-06-01T00:00:00+02:00", "2022-01-01T05:00:00Z", "2021-12-31T23:00:00+00:00", "2022-06-01T04:00:00Z", "2022-06-01T12:00:00+00:00")
-          for pre, post in ((" ", ""), ("", " "), ("", "\n"), ("\t", ""), ("", "\xa0"), (" ", " "), ("\r\n", ""))]
+          for pre, post in ((" ", ""), ("", " "), ("", "\n"), ("\t", ""), ("", "\xa0"), (" ", " "), ("\r\n", ""),
+                             # ... or any other character that is neither a digit nor Z behind them (C20_last_character_is_a_digit_or_Z)
+                             ("", "z"), ("", "x"), ("", "+"), ("", "."), ("", ":"), ("", "\u00e9"), ("", "\u3000"), ("", "T"))]
 
 
 def mutate(rng, s):
